@@ -5,6 +5,7 @@ import Dmn.Lemmas.Dto
 import Dmn.Lemmas.JsonNumberBridge
 import Dmn.Lemmas.DecPlain
 import Dmn.Lemmas.DecShape
+import Dmn.Lemmas.JsonTemporal
 
 /-!
 # C18 — the HTTP service always answers well-formed JSON reflecting the workspace
@@ -109,6 +110,71 @@ theorem unescaped_string_not_json :
   | none => rfl
   | some j => rw [h] at this; cases this
 
+
+/-! ### Temporal values (on C14's printers and readers)
+
+`jsonify` writes a date, a time, a date and time or a duration as the JSON string of its `Display`
+text.  With C14's model of that text and of the readers (`Dmn/Model/Temporal.lean`), the decoding
+statement extends from "the string of the text" to the value itself. -/
+
+open Dmn.Temporal Dmn.Cal in
+/-- Value → JSON → value, temporal kinds included: for every value — temporal values anywhere in
+lists and contexts — whose dates are dates of the calendar, whose times are times of the day with
+a fraction below a second and a zone the reader knows, whose durations are within the range of
+their literals, and whose number texts are JSON numbers: the text `jsonify` writes is a JSON
+document, and reading that document at the value's kinds (strings at temporal kinds through
+`date("…")`, `time("…")`, `date and time("…")`, `duration("…")`) gives the value back — to the
+nanosecond, with its sign, offset and zone. -/
+theorem value_jsonify_reads_back (zk : List Char → Bool) (v : FV) (hwf : FV.WF zk v) (hn : v.numbersOk = true) :
+    (Json.decode (jsonify v.toJV)).bind (readAt zk v.typeOf) = some v := by
+  rw [jsonify_decodes v.toJV (by rw [numbersOk_toJV]; exact hn)]
+  exact readAt_toJson zk v hwf
+
+open Dmn.Temporal Dmn.Cal in
+/-- non-vacuity, at the values of the seeded change C18-18 and its neighbours: a negative duration
+below one second, a zero of either kind, a time and a date-time with nothing but a fraction, alone,
+in a list and in a context -/
+example : FV.WF (fun _ => true) (.ctx [(['a'], .list [.dtDur (-500000000), .ymDur 0, .dtDur 0,
+      .time ⟨0, 0, 0, 500000000, .utc⟩, .dateTime ⟨⟨2021, 12, 31⟩, ⟨23, 59, 59, 999999999, .offset (-50400)⟩⟩]),
+      (['b'], .dtDur (-1))]) ∧
+    jsonify (FV.dtDur (-500000000)).toJV = "\"-PT0.5S\"".toList ∧
+    jsonify (FV.time ⟨0, 0, 0, 500000000, .utc⟩).toJV = "\"00:00:00.5Z\"".toList := by
+  refine ⟨?_, by decide, by decide⟩
+  simp only [FV.WF, FV.WFEntries, FV.WFList, ZoneReadable]
+  decide
+
+open Dmn.Temporal in
+/-- The sign of a days-and-time duration is in its text for every value: a negative duration is
+written with a leading `-` however small it is (−1 ns included), a non-negative one starts with
+`P`.  (The seeded change C18-18 took the sign from the whole seconds: `-PT0.5S` was written
+`PT0.5S`, which reads back as +0.5 s — second part.) -/
+theorem duration_text_carries_sign (n : Int) :
+    (n < 0 → (printDtDur n).head? = some '-') ∧ (0 ≤ n → (printDtDur n).head? = some 'P') ∧
+    parseDtDur ['P', 'T', '0', '.', '5', 'S'] = .ok 500000000 := by
+  refine ⟨?_, ?_, by decide⟩
+  · intro h
+    unfold printDtDur
+    simp only []
+    rw [if_neg (by omega), if_pos h]
+    rfl
+  · intro h
+    unfold printDtDur
+    simp only []
+    by_cases hz : n.natAbs = 0
+    · rw [if_pos hz]; rfl
+    · rw [if_neg hz, if_neg (by omega)]; rfl
+
+open Dmn.Temporal in
+/-- The text of a days-and-time duration is never a years-and-months duration: `duration("…")`
+and `try_from_xsd_duration`, which try that form first, read it as the days-and-time duration it
+was printed from (so the one type `xsd:duration` of the answer is not ambiguous), for every value
+whose days fit the largest literal. -/
+theorem duration_text_kind_unambiguous (n : Int) (hfit : n.natAbs / 86400000000000 ≤ u64Max) :
+    parseYmDur (printDtDur n) = .reject ∧ bifDuration (printDtDur n) = .dtDur n :=
+  ⟨parseYmDur_printDtDur n, bifDuration_printDtDur n hfit⟩
+
+example : (0 : Int).natAbs / 86400000000000 ≤ Dmn.Temporal.u64Max := by decide
+
 /-- Every body the service builds — `{"data":{…}}`, `{"data":<value>}`,
 `{"errors":[{"details":…}]}` — is a JSON document standing for the response. -/
 theorem response_wellformed (r : Resp) (hn : r.numbersOk = true) :
@@ -188,6 +254,78 @@ theorem evaluate_iff_deployed {I : Type} (eval : String → String → I → JV)
   · rw [if_pos h, if_pos h]; exact ⟨rfl, rfl⟩
   · rw [if_neg h, if_neg h]; exact ⟨rfl, rfl⟩
 
+/-- The error cases of the evaluate endpoint, in the order the handler tests them, for every state:
+no model name, no invocable name, a body `evaluate_context` cannot read (reported whether or not
+the model is deployed), a model that is not deployed — each is answered in the `errors` member and
+leaves the workspace as it was. -/
+theorem evaluate_error_cases {I : Type} (eval : String → String → I → JV) (s : State)
+    (model invocable : String) (oi : Option String) (x : Except (List Char) I) (m : List Char) (i : I) :
+    do_evaluate eval s none oi x = (s, .error (.missingParameter "model")) ∧
+    do_evaluate eval s (some model) none x = (s, .error (.missingParameter "invocable")) ∧
+    do_evaluate eval s (some model) (some invocable) (.error m) = (s, .error (.input m)) ∧
+    (WS.canEvaluate s model = false →
+      do_evaluate eval s (some model) (some invocable) (.ok i) = (s, .error (.notDeployed model))) := by
+  refine ⟨rfl, rfl, rfl, ?_⟩
+  intro h
+  simp [do_evaluate, h]
+
+/-- non-vacuity: nothing is deployed in the initial state -/
+example : WS.canEvaluate init "n1" = false := by decide
+
+/-- The TCK endpoint as an operation on the workspace, for every state and request: it never changes
+the workspace; it tests, in this order, the model name, the invocable name, the `input` member, the
+conversion of the typed input values, and then asks the workspace exactly as the evaluate endpoint
+does — a value (or the message of the output conversion) when the model is among the deployed ones,
+"not deployed" otherwise. -/
+theorem tck_evaluate_refines {I O : Type} (evalT : String → String → I → Except (List Char) O) (s : State)
+    (model invocable : String) (om oi : Option String) (ox : Option (Except (List Char) I)) (m : List Char) (i : I) :
+    (do_evaluate_tck evalT s om oi ox).1 = s ∧
+    do_evaluate_tck evalT s none oi ox = (s, .error (.missingParameter "model")) ∧
+    do_evaluate_tck evalT s (some model) none ox = (s, .error (.missingParameter "invocable")) ∧
+    do_evaluate_tck evalT s (some model) (some invocable) none = (s, .error (.missingParameter "input")) ∧
+    do_evaluate_tck evalT s (some model) (some invocable) (some (.error m)) = (s, .error (.input m)) ∧
+    do_evaluate_tck evalT s (some model) (some invocable) (some (.ok i)) =
+      (s, if WS.canEvaluate s model then
+            (match evalT model invocable i with | .ok o => .value o | .error e => .error (.input e))
+          else .error (.notDeployed model)) := by
+  refine ⟨?_, rfl, rfl, rfl, rfl, ?_⟩
+  · unfold do_evaluate_tck
+    split
+    · split
+      · split
+        · split
+          · rfl
+          · split
+            · split <;> rfl
+            · rfl
+        · rfl
+      · rfl
+    · rfl
+  · unfold do_evaluate_tck
+    by_cases h : WS.canEvaluate s model = true
+    · simp only [h, if_true]
+      cases evalT model invocable i <;> rfl
+    · simp only [h]
+      rfl
+
+/-- The two evaluation endpoints consult the workspace alike: given a readable input, either both
+are answered from the deployed evaluator or both answer "not deployed" for the model — after any
+history, since both leave the workspace unchanged. -/
+theorem evaluation_endpoints_agree {I J O : Type} (eval : String → String → I → JV)
+    (evalT : String → String → J → Except (List Char) O) (s : State) (model invocable : String) (i : I) (j : J) :
+    ((do_evaluate eval s (some model) (some invocable) (.ok i)).2 = .error (.notDeployed model) ↔
+      WS.canEvaluate s model = false) ∧
+    ((do_evaluate_tck evalT s (some model) (some invocable) (some (.ok j))).2 = .error (.notDeployed model) ↔
+      WS.canEvaluate s model = false) := by
+  constructor
+  · by_cases h : WS.canEvaluate s model = true
+    · simp [do_evaluate, h]
+    · simp [do_evaluate, h]
+  · by_cases h : WS.canEvaluate s model = true
+    · simp only [do_evaluate_tck, h, if_true]
+      cases evalT model invocable j <;> simp
+    · simp [do_evaluate_tck, h]
+
 end Dmn.Server
 
 /-! ## (ii) TCK value DTOs -/
@@ -211,6 +349,45 @@ theorem dto_roundtrip_needs_canonical :
     let rd : Readers := ⟨fun t => if t = ['0', '1'] then some ['1'] else some t, some, some, some, some, some, some⟩
     fromDto rd (toDto (.scalar .number ['0', '1'])) = some (.scalar .number ['1']) := by
   simp [toDto, fromDto, readSimple, xsdOf]
+
+
+/-! ### Temporal values in TCK format (on C14's printers and readers) -/
+
+open Dmn.Server Dmn.Temporal Dmn.Cal in
+/-- A typed value with temporal values anywhere in it round-trips through the TCK format with the
+text readers C14 models (`try_from_xsd_date` … `try_from_xsd_duration`, years-and-months first,
+each followed by `to_string()`): `toDto` writes the kind and the `Display` text, `fromDto` reads
+the same typed value back — for every value whose temporal parts are values of their kinds (as in
+`value_jsonify_reads_back`), whose number texts the number reader reads as themselves and whose
+component names the name reader reads as themselves, pairwise distinct within a context. The
+readers of the temporal texts are no longer parameters here. -/
+theorem temporal_dto_roundtrip (zk : List Char → Bool) (number name : List Char → Option (List Char)) (v : FV)
+    (hwf : FV.WF zk v) (hp : plainOk number name v = true) :
+    fromDto (temporalReaders zk number name) (toDto (ofFV v)) = some (ofFV v) :=
+  roundtrip _ _ (canonical_ofFV zk number name v hwf hp)
+
+open Dmn.Server Dmn.Temporal Dmn.Cal in
+/-- non-vacuity at the witness of C18-18, alone, in a list and in a component -/
+example : plainOk some some (.ctx [(['a'], .list [.dtDur (-500000000)]), (['b'], .dtDur (-500000000))]) = true ∧
+    toDto (ofFV (.dtDur (-500000000))) = .simple (some .duration) (some ['-', 'P', 'T', '0', '.', '5', 'S']) false := by
+  refine ⟨by decide, ?_⟩
+  have h : printDtDur (-500000000) = ['-', 'P', 'T', '0', '.', '5', 'S'] := by decide
+  simp [ofFV, toDto, xsdOf, h]
+
+open Dmn.Server Dmn.Temporal Dmn.Cal in
+/-- Sensitivity: with a printer that drops the sign of a duration below one second (what C18-18
+did) the text `PT0.5S` is canonical for the readers but denotes another value: the typed value read
+back differs from the one sent. -/
+theorem temporal_dto_roundtrip_needs_the_sign (zk : List Char → Bool) (number name : List Char → Option (List Char)) :
+    fromDto (temporalReaders zk number name) (.simple (some .duration) (some ['P', 'T', '0', '.', '5', 'S']) false)
+      = some (ofFV (.dtDur 500000000)) ∧ ofFV (.dtDur 500000000) ≠ ofFV (.dtDur (-500000000)) := by
+  have h1 : parseYmDur ['P', 'T', '0', '.', '5', 'S'] = .reject := by decide
+  have h2 : parseDtDur ['P', 'T', '0', '.', '5', 'S'] = .ok 500000000 := by decide
+  have h3 : printDtDur 500000000 = ['P', 'T', '0', '.', '5', 'S'] := by decide
+  have h4 : printDtDur (-500000000) = ['-', 'P', 'T', '0', '.', '5', 'S'] := by decide
+  refine ⟨?_, ?_⟩
+  · simp [fromDto, readSimple, temporalReaders, h1, h2, ofFV, h3]
+  · simp [ofFV, h3, h4]
 
 /-- The three numeric types of a typed input value (`xsd:integer`, `xsd:decimal`, `xsd:double`) are read by one and
 the same reader of number texts: what is accepted, what is rejected and what value is read do not depend on the
